@@ -173,15 +173,29 @@ def r7_var_uniform(c, facts, rule='C05.R7'):
     """all kind predicates treat an unresolved tag alike, so that where a function is defined or applied cannot change the verdict"""
     import kinds as K
     R = c.rule(rule, 'VAR-UNIFORM: every TagWrap::is_* predicate treats an unresolved tag (Tag::Var) the same way')
+    import c01
     T = K.Tables(c, facts)
-    adm = sorted(p for p in T.pred if 'Var' in T.adm(p))
-    rej = sorted(p for p in T.pred if 'Var' not in T.adm(p))
-    c.floor(R, 'kind predicates', len(T.pred), 11)
+    # decided per check position (predicate with its polarity), not per predicate: a helper predicate such as
+    # `is_schema() && !is_uri()` used only by the recursion rules (check_recursion / cycles_check, governed by CUT-AGREE,
+    # where an unresolved tag must NOT be a cut point) is not a kind check of a position
+    rows = [r for r in T.check_side() if not r['fn'].endswith(('::check_recursion', '::cycles_check'))]
+    adm, rej, unk = [], [], 0
+    for r in rows:
+        fn = facts.fn(r['fn'])
+        pol, conditional = c01.polarity(r, fn.hir['body'] if fn is not None else None)
+        v = T.pred.get(r['pred'], {}).get('Var')
+        if pol is None or v not in (K.TRUE, K.FALSE):
+            unk += 1
+            continue
+        admitted = (v == K.TRUE) == pol
+        name = '%s@%s' % (r['pred'], '.'.join(str(x) for x in (r['pos'] or ('?',))))
+        (adm if admitted else rej).append(name)
+    c.floor(R, 'kind checks with a decided polarity', len(adm) + len(rej), 14)
     if adm and rej:
-        minority = rej if len(rej) <= len(adm) else adm
-        c.bad(R, 'var-treatment-differs:%s' % ','.join(minority), 'the predicates %s %s an unresolved tag while %s do the opposite: a generic function is accepted or rejected depending on whether it is applied in its own module' % (minority, 'reject' if minority is rej else 'admit', adm if minority is rej else rej))
+        minority = sorted(set(rej if len(rej) <= len(adm) else adm))
+        c.bad(R, 'var-treatment-differs:%s' % ','.join(sorted({m.split('@')[0] for m in minority})), 'the kind checks %s %s an unresolved tag while the other %d do the opposite: a generic function is accepted or rejected depending on whether it is applied in its own module' % (minority, 'reject' if len(rej) <= len(adm) else 'admit', max(len(adm), len(rej))))
     else:
-        c.ok(R, {'predicates': len(T.pred), 'all': 'admit Var' if adm else 'reject Var'})
+        c.ok(R, {'kind checks': len(adm) + len(rej), 'all': 'admit Var' if adm else 'reject Var', 'undecided': unk})
 
 
 def run(c, facts):
